@@ -85,3 +85,18 @@ Theorem C04_page_accounting_is_the_code :
 Proof.
   exact (conj after_start_key_is_code (conj count_rule_is_code (conj break_rule_is_code lek_rule_is_code))).
 Qed.
+
+(* ... and resuming through an index from ANY exclusive start key that carries the index key and the table key -
+   whether or not the item it names is still stored (deleted between two pages) - returns every matching entry
+   positioned after it in the scan direction, and only those *)
+From Minidyn Require Import Proofs.PageLoop.
+
+Theorem C04_index_resume_returns_all_after_start_key :
+  forall lm c t q ev n ix,
+    q_index q = Some n -> lookup n (t_indexes t) = Some ix -> q_cond q = None ->
+    secondary (t_ks t) = false -> KInv t -> IInv (t_defs t) (t_data t) ix ->
+    (forall e, In e (ies q ix) -> match_key lm c t q (get_item t (snd e)) = Ok (ev (snd e))) ->
+    forall L esk, 0 < L -> esk_positioned t ix esk ->
+    ipages lm c t q (S (List.length (ies q ix))) L esk =
+    Some (map (eitem t) (filter (ematched ev) (filter (aft2b (q_forward q) (esk_pos t ix esk)) (ies q ix)))).
+Proof. exact index_resume_complete. Qed.
